@@ -164,5 +164,3 @@ func firstLines(s string, n int) string {
 	return strings.Join(ls, " | ")
 }
 
-func cmdCheck(args []string) { fmt.Println("not yet"); os.Exit(2) }
-func cmdReplay(args []string) { fmt.Println("not yet"); os.Exit(2) }
